@@ -364,6 +364,62 @@ def case_mapov(ctx, inp):
         ctx.branch("mapov-nd")
 
 
+def case_mapov2(ctx, inp):
+    """map_overlap over two arrays of different rank (the lower-rank one is broadcast along the leading axis):
+    depth/boundary are given per array; the trim follows the array of highest rank."""
+    import numpy as np
+    import dask.array as da
+    chunks = tuple(tuple(c) for c in inp["chunks"])           # chunks of the 2-d array
+    shape = tuple(sum(c) for c in chunks)
+    a = (np.arange(int(np.prod(shape))).reshape(shape) % 13 + 1).astype("int64")
+    b = (np.arange(shape[1]) % 5 + 2).astype("int64")
+    d0, d1 = inp["depth"]
+    k1 = inp["boundary"]
+    da_a = da.from_array(a, chunks=chunks)
+    da_b = da.from_array(b, chunks=(chunks[1],))
+    offs = inp["offsets"]            # offsets along axis 1 (shared), within d1; along axis 0 within d0
+    w = inp["weights"]
+
+    def f(x, y):
+        # x: 2-d block, y: 1-d block (same extent along the shared axis)
+        fx = _stencil(w, [[o0, o1] for o0, o1 in offs])(x)
+        fy = _stencil(w, [[o1] for _, o1 in offs])(y)
+        return fx + fy[None, :]
+
+    def fr(y, x):
+        return f(x, y)
+
+    def pad(arr, ax, d, k):
+        if d == 0 or k == "none":
+            return arr, 0
+        p = [(0, 0)] * arr.ndim
+        p[ax] = (d, d)
+        return (np.pad(arr, p, mode=KINDS[k]) if k in KINDS else np.pad(arr, p, mode="constant", constant_values=k)), d
+    ap, t0 = pad(a, 0, d0, inp["boundary0"])
+    ap, t1 = pad(ap, 1, d1, k1)
+    bp, _ = pad(b, 0, d1, k1)
+    full = f(ap, bp)
+    exp = full[t0:full.shape[0] - t0 or None, t1:full.shape[1] - t1 or None]
+    depth_a, depth_b = {0: d0, 1: d1}, {0: d1}
+    bnd_a, bnd_b = {0: inp["boundary0"], 1: k1}, {0: k1}
+    try:
+        if inp["low_rank_first"]:
+            r = da.map_overlap(fr, da_b, da_a, depth=[depth_b, depth_a], boundary=[bnd_b, bnd_a], dtype=a.dtype)
+        else:
+            r = da.map_overlap(f, da_a, da_b, depth=[depth_a, depth_b], boundary=[bnd_a, bnd_b], dtype=a.dtype)
+        got = np.asarray(r.compute(scheduler="sync"))
+    except ValueError as e:
+        if d0 > shape[0] or d1 > shape[1]:
+            ctx.branch("mapov2-rejected-depth")
+            return
+        ctx.fail("map_overlap (two arrays) raised ValueError", observed=repr(e)[:200])
+        return
+    if got.shape != exp.shape or (got != exp).any():
+        ctx.fail("map_overlap over two arrays differs from pad-apply-trim", observed=got.tolist(), expected=exp.tolist())
+        return
+    ctx.branch("mapov2-low-rank-first" if inp["low_rank_first"] else "mapov2-high-rank-first")
+
+
 def case_swv(ctx, inp):
     import numpy as np
     import dask.array as da
@@ -404,7 +460,7 @@ def case_swv(ctx, inp):
         ctx.branch("swv-repeated-axis")
 
 
-CASES = {"chunks": case_chunks, "emc": case_emc, "blocks": case_blocks, "bnd": case_bnd, "trimid": case_trimid,
+CASES = {"mapov2": case_mapov2, "chunks": case_chunks, "emc": case_emc, "blocks": case_blocks, "bnd": case_bnd, "trimid": case_trimid,
          "mapov": case_mapov, "swv": case_swv}
 
 
@@ -494,6 +550,15 @@ def generate(ctx):
         weights = [rng.randint(-3, 3) or 1 for _ in range(k)]
         yield "mapov", {"chunks": chunks, "depth": depth, "boundary": bnd, "offsets": offsets, "weights": weights,
                         "allow_rechunk": rng.random() < 0.85}
+    # map_overlap over two arrays of different rank, per-array depth/boundary lists
+    for _ in range(ctx.n(40, 600)):
+        chunks = [list(random_chunks(rng, rng.randint(2, 6))), list(random_chunks(rng, rng.randint(2, 7)))]
+        d0, d1 = rng.randint(0, 2), rng.randint(0, 2)
+        k = rng.randint(1, 3)
+        yield "mapov2", {"chunks": chunks, "depth": [d0, d1], "boundary0": rng.choice(["none", "reflect", "periodic", 0]),
+                         "boundary": rng.choice(["none", "reflect", "periodic", "nearest", 1]),
+                         "offsets": [[rng.randint(-d0, d0), rng.randint(-d1, d1)] for _ in range(k)],
+                         "weights": [rng.randint(-2, 3) or 1 for _ in range(k)], "low_rank_first": rng.random() < 0.5}
     # sliding_window_view
     for _ in range(ctx.n(50, 800)):
         nd = rng.randint(1, 3)
